@@ -364,7 +364,8 @@ func lemmaOriginRoundTrip(p []byte) ([]byte, int) {
 //@ func quotedQualifierParser$1(state *pars.State, result *pars.Result) (err error)
 //@   prop C07
 //@   requires !isnil(state) && !isnil(result) && len(p) >= 1
-//@   loop 1: invariant i < 0 || i + len(p) <= len(token)
+//@   loop 1: invariant fresh(token)
+//@   loop 2: invariant i < 0 || i + len(p) <= len(token)
 //@ func literalQualifierValueParser$1(state *pars.State, result *pars.Result) (err error)
 //@   prop C07
 //@   requires !isnil(state) && !isnil(result)
